@@ -684,6 +684,8 @@ impl<'a> RtEval<'a> {
 
 pub fn contains_not_or_empty_union(t: &Runtype) -> Option<&'static str> {
     match &t.kind {
+        // the listed finding (c07-negation-materialised) is a *bare* negation (a union member or the whole type); a negation
+        // left inside an intersection is what remove_nots_of_intersections_and_empty_of_union exists to remove
         RuntypeKind::StNot(_) => Some("StNot"),
         RuntypeKind::AnyOf(ms) => {
             if ms.is_empty() {
@@ -691,7 +693,12 @@ pub fn contains_not_or_empty_union(t: &Runtype) -> Option<&'static str> {
             }
             ms.iter().find_map(contains_not_or_empty_union)
         }
-        RuntypeKind::AllOf(ms) => ms.iter().find_map(contains_not_or_empty_union),
+        RuntypeKind::AllOf(ms) => {
+            if ms.iter().any(|m| matches!(m.kind, RuntypeKind::StNot(_))) {
+                return Some("StNot inside an intersection");
+            }
+            ms.iter().find_map(contains_not_or_empty_union)
+        }
         RuntypeKind::Array(x) | RuntypeKind::Set(x) => contains_not_or_empty_union(x),
         RuntypeKind::Map(a, b) => contains_not_or_empty_union(a).or_else(|| contains_not_or_empty_union(b)),
         RuntypeKind::Tuple { prefix_items, items } => prefix_items.iter().find_map(contains_not_or_empty_union).or_else(|| items.as_ref().and_then(|x| contains_not_or_empty_union(x))),
@@ -905,7 +912,8 @@ pub fn handle_sem(req: &Value) -> Value {
                 Ok(c) => c,
                 Err(e) => return json!({"clean_err": e.to_string()}),
             };
-            let dropped_negation = contains_not_or_empty_union(&head.schema) == Some("StNot") && contains_not_or_empty_union(&cleaned) != Some("StNot");
+            let has_not = |t: &Runtype| contains_not_or_empty_union(t).map(|u| u.starts_with("StNot")).unwrap_or(false);
+            let dropped_negation = has_not(&head.schema) && !has_not(&cleaned);
             // (c) printable
             let unprintable = contains_not_or_empty_union(&cleaned).or_else(|| tail.iter().find_map(|t| contains_not_or_empty_union(&t.schema)));
             // (d) every Ref resolves to exactly one definition
